@@ -29,19 +29,17 @@ TRUSTED = [
     'function bodies), each tied to the code by its own property check and, composed, by this run',
 ]
 ASSUMPTIONS = [
-    'ideal reals: evaluations in which a function takes or returns a number that is not exact in double arithmetic '
-    '(a float that is not dyadic with at most 15 significant digits, an int beyond 2^53, a float zero computed from a '
-    'negative argument = possibly -0.0; the strict run of the driver says so) are compared within 1e-9 and a remaining '
-    'difference is counted as float noise; non-finite results are outside the model',
+    'ideal reals: an evaluation in which every number a function takes or returns is a double (strict probe of the driver, '
+    'exact=1) is compared with a RELATIVE tolerance of 1e-12; one in which floats that are no doubles (0.1, 1E-20, 1/3) only '
+    'go through well-conditioned steps (smooth functions without cancellation, comparisons 1e-6 apart; soft probe, exact=2) with '
+    '1e-9 — a difference is DRIFT in both; otherwise (rounding, truncation, text of an inexact float, a possible -0.0, '
+    'cancellation; exact=0) 1e-9 and a remaining difference is counted as float noise; non-finite results are outside the model',
     'no text is a date: workbooks in which dateutil.parser.parse accepted a text are discarded',
     'functions that are transcendental / float-only (except at their exact points), IRR/XIRR/XNPV/VDB/YEARFRAC/PI/SQRTPI, '
     'SUMIF(S) and the volatile ones are outside the model: cells whose evaluation calls them are skipped '
     '(the driver answers unsupported:<NAME>); so are fractional powers, times of day, non-ASCII UPPER/LOWER, '
     'exponent texts in base conversion (Model/C19 grammar) and what Model/C15 itself leaves unmodelled (MATCH with an '
     'approximate match type over a lookup array of 64 or more cells that is not one run)',
-    'the evaluator hands the NATIVE Python result of COUNT/COUNTA/MAX/MIN/IS* on unchanged: = / <> of two natives follows '
-    'Python == (known finding D57 of C09, reachable through formulas: =COUNT(1)=ISBLANK(F7) is TRUE) and COUNT counts a native '
-    'bool (COUNT(FALSE,ISODD(11)) = 1); the value universe of the models has no native values: classified (res.known D57), not reported',
     'arrays as IF conditions (the code raises ValueError), operator operands that are arrays, and cells whose VALUE is an '
     'array being read as a member of a range (the code raises AttributeError) are outside the evaluator model',
     'a real evaluation slower than 20 s (huge factorials, day-by-day recurrences over millennia) is skipped',
@@ -75,6 +73,18 @@ def wire_request(wb, addrs):
                       cp(wb.get('default', 'Sheet1'))])
 
 
+def wire_history(wb, ops):
+    cells = []
+    for a, c in wb['cells'].items():
+        if isinstance(c, dict):
+            cells.append(f'{cp(a)}~t~{cp(c["f"])}')
+        else:
+            cells.append(f'{cp(a)}~c~{wire_const(c)}')
+    names = [f'{cp(n)}~{cp(t)}' for n, t in wb.get('names', {}).items()]
+    ws = [f'e~{cp(op[1])}' if op[0] == 'e' else f's~{cp(op[1])}~{wire_const(op[2])}' for op in ops]
+    return '\t'.join(['X01', 'hist', '|'.join(cells), '|'.join(names), '|'.join(ws), cp(wb.get('default', 'Sheet1'))])
+
+
 # ------------------------------------------------------------------------------------------------ real code
 
 CRASH_NAMES = {'TypeError', 'ValueError', 'ZeroDivisionError', 'OverflowError', 'RecursionError', 'KeyError',
@@ -90,10 +100,15 @@ def install_dateutil_probe():
     import dateutil.parser
     orig = dateutil.parser.parse
 
-    def parse(*a, **kw):
-        r = orig(*a, **kw)
-        _DATEUTIL['hits'] += 1
-        return r
+    def parse(timestr, *a, **kw):
+        # decided independently of HOW the code under test calls the parser (fuzzy, default, …): is the text a
+        # date for the plain, strict parser?
+        try:
+            orig(timestr)
+            _DATEUTIL['hits'] += 1
+        except Exception:  # noqa: BLE001
+            pass
+        return orig(timestr, *a, **kw)
     dateutil.parser.parse = parse
     _DATEUTIL['installed'] = True
 
@@ -161,6 +176,36 @@ def real_eval(wb, addrs, limit=20):
         signal.signal(signal.SIGALRM, old)
 
 
+def real_history(wb, ops, limit=30):
+    """the history on ONE model and ONE evaluator -> (outcomes of its evaluate calls, dateutil accepted a text?)"""
+    import signal
+    old = signal.signal(signal.SIGALRM, _alarm)
+    signal.alarm(limit)
+    try:
+        from xlcalculator import Evaluator
+        install_dateutil_probe()
+        h0 = _DATEUTIL['hits']
+        try:
+            ev = Evaluator(build_real(wb))
+        except RecursionError:
+            return [('X:compile:RecursionError', None)] * sum(1 for o in ops if o[0] == 'e'), False
+        except Exception as exc:  # noqa: BLE001
+            cls = type(exc).__name__
+            return [('X:compile:' + (cls if cls in CRASH_NAMES else 'Other'), None)] * sum(1 for o in ops if o[0] == 'e'), False
+        out = []
+        for op in ops:
+            if op[0] == 'e':
+                out.append(canon_outcome(ev.evaluate, op[1]))
+            else:
+                ev.set_cell_value(op[1], op[2])
+        return out, _DATEUTIL['hits'] > h0
+    except Timeout:
+        return None
+    finally:
+        signal.alarm(0)
+        signal.signal(signal.SIGALRM, old)
+
+
 def _real_eval(wb, addrs):
     from xlcalculator import Evaluator
     install_dateutil_probe()
@@ -197,12 +242,16 @@ def num_of(w):
     return None
 
 
-def close(a, b):
-    a, b = float(a), float(b)
-    return abs(a - b) <= 1e-9 * max(1.0, abs(a), abs(b))
+TOL = {'1': Fraction(1, 10 ** 12), '2': Fraction(1, 10 ** 9), '0': Fraction(1, 10 ** 9)}
 
 
-def same(real, crash, lean):
+def close(a, b, exact='0'):
+    """RELATIVE agreement (no absolute floor: 1e-17 is not 0)"""
+    a, b = Fraction(a), Fraction(b)
+    return abs(a - b) <= TOL.get(exact, TOL['0']) * max(abs(a), abs(b))
+
+
+def same(real, crash, lean, exact='0'):
     """agreement of a real outcome with a Lean outcome"""
     if lean.startswith('X:crash:'):
         return real.startswith('X:runtime:') and crash == lean[8:]
@@ -211,12 +260,12 @@ def same(real, crash, lean):
     if real == lean:
         return True
     if real[:2] == lean[:2] and real[:2] in ('F:', 'D:'):
-        return close(num_of(real), num_of(lean))
+        return close(num_of(real), num_of(lean), exact)
     if real.startswith('A:') and lean.startswith('A:'):
         ra = [r.split(',') for r in real[2:].split(';')]
         la = [r.split(',') for r in lean[2:].split(';')]
         return (len(ra) == len(la) and all(len(x) == len(y) for x, y in zip(ra, la))
-                and all(same(p, None, q) for x, y in zip(ra, la) for p, q in zip(x, y)))
+                and all(same(p, None, q, exact) for x, y in zip(ra, la) for p, q in zip(x, y)))
     return False
 
 
@@ -318,16 +367,29 @@ def root_name(t):
 # ------------------------------------------------------------------------------------------------ generator
 
 TEXTS = ['ab', 'Ab', 'xyz', 'x y', ' x ', 'q', '12', '3.5', '-4', '1e2', 'TRUE', 'false', 'AB', 'b', 'hello world',
-         '101', '1F', '77', '  two  words ', 'a"b', 'ä']
+         '101', '1F', '77', '  two  words ', 'a"b', 'ä', 'lot 7', 'x1', 'no. 5', 'room 12b', 'ab12', 'item 3']
 ERRS = ['#N/A', '#DIV/0!', '#VALUE!', '#REF!', '#NAME?', '#NUM!', '#NULL!']
 COLS = 'ABCD'
+COL_OFFSETS = [0, 0, 0, 4, 5, 6, 13, 14, 21, 28, 29]      # tables that cross a column index multiple of 8 (H, P, X, AF)
+
+
+def col_letter(i):
+    """0 -> A, 25 -> Z, 26 -> AA"""
+    s, i = '', i + 1
+    while i:
+        i, r = divmod(i - 1, 26)
+        s = chr(65 + r) + s
+    return s
+
 NATIVE = {'COUNT', 'COUNTA', 'ISBLANK', 'ISERR', 'ISERROR', 'ISEVEN', 'ISNA', 'ISNUMBER', 'ISODD', 'ISTEXT', 'MAX', 'MIN'}
 
 
 class Gen:
     """type-directed random formulas over the integrated library"""
 
-    def __init__(self, rng, sheets, cells_by_sheet, kinds, names, own_sheet):
+    def __init__(self, rng, sheets, cells_by_sheet, kinds, names, own_sheet, off=0):
+        self.cols = [col_letter(off + i) for i in range(4)]
+        self.far = [col_letter(off + 6), col_letter(off + 7)]     # columns nothing is stored in
         self.rng = rng
         self.sheets = sheets                  # sheet names
         self.cells = cells_by_sheet           # sheet -> list of coordinates that hold something
@@ -367,7 +429,7 @@ class Gen:
 
     def blank_ref(self):
         s = self.rng.choice(self.sheets)
-        return self.ref_to(s, self.rng.choice(['E9', 'F7', 'E8']))
+        return self.ref_to(s, self.rng.choice([self.far[0] + '9', self.far[1] + '7', self.far[0] + '8']))
 
     def any_ref(self):
         a = self.rng.choice(list(self.kinds))
@@ -380,8 +442,8 @@ class Gen:
         r0 = self.rng.randrange(1, 4)
         w = cols if cols is not None else self.rng.choice([1, 1, 2, 2, 3])
         h = rows if rows is not None else self.rng.choice([1, 2, 2, 3])
-        a = COLS[c0] + str(r0)
-        b = COLS[min(c0 + w - 1, 3)] + str(r0 + h - 1)
+        a = self.cols[c0] + str(r0)
+        b = self.cols[min(c0 + w - 1, 3)] + str(r0 + h - 1)
         text = self.coord(a) + ':' + self.coord(b)
         if s == self.own and self.rng.random() < 0.8:
             return ('ref', None, text)
@@ -398,9 +460,30 @@ class Gen:
         if r < 0.85:
             v = self.rng.choice(['0.5', '2.5', '1.25', '0.25', '7.5', '10.75', '0.125', '3.0', '100', '1000'])
             return ('num', v)
-        if r < 0.92:
-            return ('num', self.rng.choice(['50%', '25%', '200%', '1E+2', '2.5E+1', '5E-1', '25E-1', '.5E+1', '5.E+0', '0.5E+1']))
+        if r < 0.90:
+            return ('num', self.rng.choice(['50%', '25%', '200%', '1E+2', '2.5E+1', '5E-1', '25E-1', '.5E+1', '5.E+0', '0.5E+1',
+                                            '.5', '.25', '8.', '80E-3', '.08', '12.E+1', '25E-2', '125E-3', '5.%', '.5%']))
+        if r < 0.95:
+            return self.tiny()
         return ('num', self.rng.choice(['0.1', '0.2', '1.1', '2.3', '0.7']))
+
+    def tiny(self):
+        """numbers far below 1e-15 (and a few huge ones): exact powers of two, tiny decimals, tiny cells"""
+        rng = self.rng
+        r = rng.random()
+        if r < 0.35:
+            return ('bin', '^', ('num', '2'), ('neg', ('num', str(rng.choice([40, 52, 55, 60, 64, 70, 80, 100])))))
+        if r < 0.55:
+            return ('num', rng.choice(['1E-20', '4E-16', '1E-17', '2.5E-17', '1E-8', '2E-9', '1E-300', '5E-16', '1E+20']))
+        if r < 0.75:
+            c = self.cell_of_kind('tiny')
+            if c:
+                return c
+        if r < 0.9:
+            a, b = rng.choice([52, 60, 64, 70]), rng.choice([53, 61, 66, 72])
+            return ('bin', rng.choice(['+', '-', '+']), ('bin', '^', ('num', '2'), ('neg', ('num', str(a)))),
+                    ('bin', '^', ('num', '2'), ('neg', ('num', str(b)))))
+        return ('bin', '*', ('num', '1E-8'), ('num', '1E-8'))
 
     def err_expr(self):
         r = self.rng.random()
@@ -464,6 +547,8 @@ class Gen:
 
     def g_text(self, d):
         rng = self.rng
+        if self.names and rng.random() < 0.12:
+            return ('str', rng.choice(list(self.names)))       # a TEXT that is spelt like a defined name
         if d <= 0 or rng.random() < 0.3:
             c = self.cell_of_kind('text') if rng.random() < 0.4 else None
             return c or ('str', rng.choice(TEXTS))
@@ -474,6 +559,8 @@ class Gen:
 
     def g_bool(self, d):
         rng = self.rng
+        if rng.random() < 0.05:
+            return self.tiny()                      # a number as a truth value: non-zero is TRUE however small
         if d <= 0 or rng.random() < 0.2:
             c = self.cell_of_kind('bool') if rng.random() < 0.4 else None
             return c or ('bool', rng.random() < 0.5)
@@ -483,6 +570,29 @@ class Gen:
             k = rng.choice(['num', 'num', 'text', 'any'])
             return ('bin', op, self.gen(k, d - 1), self.gen(k if rng.random() < 0.8 else 'any', d - 1))
         return self.call(rng.choice(BOOL_FUNCS), d)
+
+    def date_identity(self):
+        """a DATE()/EDATE() result against the plain serial number of the same day: =, <>, -, comparisons"""
+        import datetime
+        rng = self.rng
+        y, m, dd = rng.choice([1900, 1901, 1999, 2000, 2020, 2024]), rng.randint(1, 12), rng.randint(1, 28)
+        day = datetime.date(y, m, dd)
+        serial = (day - datetime.date(1899, 12, 31)).days + (1 if day > datetime.date(1900, 2, 28) else 0)
+        date = ('call', 'DATE', [('num', str(y)), ('num', str(m)), ('num', str(dd))])
+        r = rng.random()
+        if r < 0.25:
+            n = self.cell_of_kind('serial') or ('num', str(serial))
+            return ('bin', rng.choice(['=', '<>', '>=']),
+                    ('call', 'DATE', [('call', 'YEAR', [n]), ('call', 'MONTH', [n]), ('call', 'DAY', [n])]), n)
+        other = ('num', str(serial + rng.choice([0, 0, 0, 1, -1, -60, 60, -59])))
+        if r < 0.6:
+            l, rr = (date, other) if rng.random() < 0.7 else (other, date)
+            return ('bin', rng.choice(['=', '<>', '=', '<', '>=']), l, rr)
+        if r < 0.85:
+            return ('bin', rng.choice(['-', '-', '+']), date, other if rng.random() < 0.7 else self.int_lit(0, 70))
+        k = rng.randint(-3, 14)
+        n = ('num', str(serial))
+        return ('bin', rng.choice(['-', '=']), ('call', 'EDATE', [n, ('num', str(k)) if k >= 0 else ('neg', ('num', str(-k)))]), n)
 
     def g_date(self, d):
         rng = self.rng
@@ -541,7 +651,7 @@ class Gen:
             return self.gen('num', 0)
         if r < 0.8:
             op = rng.choice(['', '=', '<>', '<', '>', '<=', '>='])
-            val = rng.choice(['2', '0', '2.5', 'ab', 'AB', 'x y', 'TRUE', '', '12', '-4'])
+            val = rng.choice(['2', '0', '2.5', 'ab', 'AB', 'x y', 'TRUE', '', '12', '-4'] + list(self.names))
             return ('str', op + val)
         return self.gen('any', 0)
 
@@ -705,7 +815,10 @@ def gen_workbook(rng):
     sheets = ['Sheet1'] + rng.sample(SHEET_POOL[1:], nsheets - 1)
     default = 'Sheet1'
     n = rng.randint(3, 15)
-    slots = [(s, COLS[c] + str(r)) for s in sheets for c in range(4) for r in range(1, 5)]
+    off = rng.choice(COL_OFFSETS)
+    cols = [col_letter(off + i) for i in range(4)]
+    LC, FC = col_letter(off + 4), col_letter(off + 5)            # lookup column / its MATCH formulas
+    slots = [(s, cols[c] + str(r)) for s in sheets for c in range(4) for r in range(1, 5)]
     rng.shuffle(slots)
     slots = slots[:n]
     nconst = max(1, int(n * rng.uniform(0.3, 0.7)))
@@ -716,8 +829,15 @@ def gen_workbook(rng):
         by_sheet[s].append(c)
         if i < nconst:
             r = rng.random()
-            if r < 0.55:
-                v = rng.choice([rng.randint(-5, 20), rng.randint(0, 9), rng.choice([0.5, 2.5, 1.25, 7.75, 0.1, 100.0])])
+            if r < 0.06:
+                v = rng.choice([2.0 ** -60, 2.0 ** -66, 2.0 ** -52, -2.0 ** -70, 1e-20, 4e-16, -2.5e-17, 2e-9, 1e-18, 2.0 ** 70])
+                kinds[a] = 'tiny'
+            elif r < 0.10:
+                v = rng.choice([43831, 61, 60, 59, 36526, 45000, 366, 43889])
+                kinds[a] = 'serial'
+            elif r < 0.55:
+                v = rng.choice([rng.randint(-5, 20), rng.randint(0, 9), rng.choice([0, 1, 1, 0, 2]),
+                                rng.choice([0.5, 2.5, 1.25, 7.75, 0.1, 100.0, 1.0, 0.0, 2.0])])
                 kinds[a] = 'num'
             elif r < 0.85:
                 v = rng.choice(TEXTS)
@@ -747,9 +867,20 @@ def gen_workbook(rng):
             if rng.random() < 0.012:
                 trees[a] = ('raw', rng.choice(BROKEN)[1:])
             else:
-                g = Gen(rng, sheets, by_sheet, kinds, name_targets, s)
-                kind = rng.choice(['num', 'num', 'num', 'text', 'bool', 'any', 'date'])
-                trees[a] = g.gen(kind, rng.choice([1, 2, 2, 3, 3, 4]))
+                g = Gen(rng, sheets, by_sheet, kinds, name_targets, s, off)
+                kind = rng.choice(['num', 'num', 'num', 'text', 'bool', 'any', 'date', 'num', 'text', 'bool', 'dateid', 'tiny'])
+                if kind == 'dateid':
+                    trees[a] = g.date_identity()
+                elif kind == 'tiny':
+                    x = g.tiny()
+                    trees[a] = rng.choice([
+                        x, ('bin', rng.choice(['+', '-', '*', '+']), x, g.tiny()),
+                        ('call', 'IF', [x, ('num', '1'), ('num', '2')]), ('call', 'NOT', [x]),
+                        ('call', rng.choice(['AND', 'OR']), [x, ('bool', rng.random() < 0.5)]),
+                        ('bin', rng.choice(['>', '=', '<>']), ('bin', '+', x, g.tiny()), ('num', '0')),
+                        ('bin', '/', ('num', '1'), ('paren', ('bin', '+', x, g.tiny())))])
+                else:
+                    trees[a] = g.gen(kind, rng.choice([1, 2, 2, 3, 3, 4]))
             cells[a] = {'f': '=' + render(trees[a])}
     if rng.random() < 0.12:
         # a lookup column with sorted / unsorted numbers, texts, booleans, EMPTY and ERROR cells, and MATCH over it
@@ -762,7 +893,7 @@ def gen_workbook(rng):
         elif rng.random() < 0.25:
             rng.shuffle(base)
         for i, v in enumerate(base):
-            a = f'{ls}!E{i + 1}'
+            a = f'{ls}!{LC}{i + 1}'
             r = rng.random()
             if r < 0.5:
                 cells[a] = v
@@ -779,26 +910,93 @@ def gen_workbook(rng):
         fs = rng.choice(sheets)
         for j in range(rng.choice([1, 2, 3])):
             key = rng.choice([('num', str(rng.randint(0, 12))), ('neg', ('num', str(rng.randint(1, 4)))), ('num', '2.5'),
-                              ('str', 'ab'), ('bool', rng.random() < 0.5), ('ref', None if fs == ls else ls, 'E9'),
+                              ('str', 'ab'), ('bool', rng.random() < 0.5), ('ref', None if fs == ls else ls, LC + '9'),
                               ('err', '#N/A'), ('num', str(base[0]))])
             col = ('ref', None if (fs == ls and rng.random() < 0.7) else ls,
-                   rng.choice(['E1', '$E$1', 'E$1']) + ':' + rng.choice([f'E{h}', f'$E${h}', f'E{h + 1}']))
+                   rng.choice([f'{LC}1', f'${LC}$1', f'{LC}$1']) + ':' + rng.choice([f'{LC}{h}', f'${LC}${h}', f'{LC}{h + 1}']))
             args = [key, col]
             mt = rng.choice([None, ('num', '1'), ('neg', ('num', '1')), ('num', '0'), ('num', '1'), ('neg', ('num', '1')),
                              ('bool', True), ('num', '2'), ('str', '1'), ('err', '#VALUE!')])
             if mt is not None:
                 args.append(mt)
-            a = f'{fs}!F{j + 1}'
+            a = f'{fs}!{FC}{j + 1}'
             trees[a] = ('call', rng.choice(['MATCH', 'MATCH', 'match']), args)
             if rng.random() < 0.3:
                 trees[a] = ('bin', '&', trees[a], ('str', 'x'))
             cells[a] = {'f': '=' + render(trees[a])}
+    history = []
+    if rng.random() < 0.07:
+        # a scenario: flows computed from an input OUTSIDE the range that aggregates them, re-evaluated after the input changes
+        hs = rng.choice(sheets)
+        inp, flows = f'{hs}!{cols[0]}6', [f'{hs}!{cols[i]}7' for i in range(rng.choice([2, 3, 4]))]
+        cells[inp] = rng.choice([2, 3, 0.5, 10])
+        for i, fa in enumerate(flows):
+            prev = ('ref', None, f'{cols[i - 1]}7') if i else ('num', str(rng.choice([100, 400, 8])))
+            trees[fa] = rng.choice([('bin', '*', prev, ('ref', None, rng.choice([f'{cols[0]}6', f'${cols[0]}$6']))),
+                                    ('bin', '+', ('ref', None, f'{cols[0]}6'), ('num', str(i + 1)))])
+            cells[fa] = {'f': '=' + render(trees[fa])}
+        rg = ('ref', None, f'{cols[0]}7:{cols[len(flows) - 1]}7')
+        aggs = []
+        for j in range(rng.choice([1, 2])):
+            aa = f'{hs}!{cols[j]}8'
+            trees[aa] = rng.choice([('call', 'SUM', [rg]), ('call', 'NPV', [('num', '0.5'), rg]), ('call', 'MAX', [rg]),
+                                    ('call', 'SUMPRODUCT', [rg, rg]), rg, ('call', 'COUNTIF', [rg, ('str', '>4')]),
+                                    ('call', 'MATCH', [('num', '6'), rg, ('num', '0')]), ('call', 'AVERAGE', [rg, ('num', '1')])])
+            cells[aa] = {'f': '=' + render(trees[aa])}
+            aggs.append(aa)
+        for v in rng.sample([5, 7, 0.25, 1, 0, 'ab', True], rng.choice([1, 2, 3])):
+            history.append(('s', inp, v))
+            history += [('e', x) for x in aggs] + ([('e', flows[-1])] if rng.random() < 0.5 else [])
+    if rng.random() < 0.35:
+        # set_cell_value between evaluations on the ONE model / evaluator: type twins (1 / TRUE / 1.0 / "1"), new values,
+        # new cells, formula cells; then everything that computes is evaluated again
+        fcells = [a for a, v in cells.items() if isinstance(v, dict)]
+        current = {a: v for a, v in cells.items() if not isinstance(v, dict)}
+        for _ in range(rng.choice([1, 2, 3])):
+            for _ in range(rng.choice([1, 1, 2])):
+                r = rng.random()
+                if r < 0.8 and current:
+                    a = rng.choice(list(current))
+                elif r < 0.9:
+                    a = f'{rng.choice(sheets)}!{rng.choice(cols)}{rng.randint(1, 5)}'
+                    if isinstance(cells.get(a), dict):
+                        continue
+                elif fcells:
+                    a = rng.choice(fcells)
+                else:
+                    continue
+                old = current.get(a)
+                twins = {1: [True, 1.0, '1'], 0: [False, 0.0, '0'], True: [1, 'TRUE', 1.0], False: [0, 'FALSE', 0.0]}
+                if a in current and isinstance(old, (int, float)) and float(old) in (0.0, 1.0) and rng.random() < 0.7:
+                    key = bool(old) if isinstance(old, bool) else int(old)
+                    pool = [x for x in twins[key] if not (x == old and type(x) is type(old))]
+                    v = rng.choice(pool)
+                elif a in current and isinstance(old, int) and not isinstance(old, bool) and rng.random() < 0.4:
+                    v = rng.choice([float(old), str(old)])
+                elif a in current and isinstance(old, float) and old == int(old) and abs(old) < 1e6 and rng.random() < 0.4:
+                    v = int(old)
+                else:
+                    v = rng.choice([rng.randint(-3, 9), rng.choice([0, 1]), rng.random() < 0.5, rng.choice(TEXTS),
+                                    rng.choice([0.5, 2.5, 1.0, 0.0]), rng.choice([43831, 60])])
+                if v == '' or (isinstance(v, str) and v.startswith('=')):
+                    continue
+                history.append(('s', a, v))
+                if a not in fcells:
+                    current[a] = v
+            ev = list(fcells)
+            rng.shuffle(ev)
+            history += [('e', a) for a in ev[:rng.choice([len(ev), len(ev), 3])]]
+            if current and rng.random() < 0.3:
+                history.append(('e', rng.choice(list(current))))
     # keys of the default sheet are sometimes given without the sheet
     out = {}
     for a, v in cells.items():
         s, c = a.rsplit('!', 1)
         out[c if (s == default and rng.random() < 0.2) else a] = v
-    return {'cells': out, 'names': names, 'default': default}, trees
+    wb = {'cells': out, 'names': names, 'default': default}
+    if history:
+        wb['history'] = [list(op) for op in history]
+    return wb, trees
 
 
 def full(wb, key):
@@ -823,6 +1021,41 @@ def lean_eval(ctx, wbs_addrs):
     return out
 
 
+def lean_history(ctx, items):
+    """items: (wb, ops) -> per item the list of (impl, exact) of the evaluate calls"""
+    lines = [wire_history(wb, ops) for wb, ops in items]
+    out = []
+    for resp, (wb, ops) in zip(ctx.driver.batch(lines), items):
+        kv = parse_kv(resp)
+        if 'impl' not in kv:
+            raise RuntimeError(f'driver: {resp[:300]} for {wb}')
+        n = sum(1 for o in ops if o[0] == 'e')
+        impl = kv['impl'].split('|') if n else []
+        exact = kv.get('exact', '').split('|') if kv.get('exact') else ['1'] * len(impl)
+        if len(impl) != n:
+            raise RuntimeError(f'driver answered {len(impl)} results for {n} evaluate calls: {resp[:300]}')
+        out.append(list(zip(impl, exact)))
+    return out
+
+
+def apply_sets(wb, ops):
+    """the workbook a user would hold who only performed the sets (constants replaced / added; a set on a formula
+    cell does not change what it computes)"""
+    cells = dict(wb['cells'])
+    key_of = {full(wb, k): k for k in cells}
+    for op in ops:
+        if op[0] != 's':
+            continue
+        a = name_target(wb, op[1]) or op[1]
+        k = key_of.get(a)
+        if k is None:
+            cells[a] = op[2]
+            key_of[a] = a
+        elif not isinstance(cells[k], dict):
+            cells[k] = op[2]
+    return {'cells': cells, 'names': dict(wb.get('names', {})), 'default': wb.get('default', 'Sheet1')}
+
+
 def addrs_of(wb):
     return [full(wb, k) for k in wb['cells']] + list(wb.get('names', {}))
 
@@ -831,7 +1064,7 @@ def classify(real, crash, lean, exact):
     """'ok' | 'unsupported' | 'noise' | 'drift'"""
     if lean.startswith('unsupported:'):
         return 'unsupported'
-    if same(real, crash, lean):
+    if same(real, crash, lean, exact):
         return 'ok'
     if real.startswith('N:'):
         return 'unsupported'                       # a non-finite float: outside the ideal-real model
@@ -840,7 +1073,7 @@ def classify(real, crash, lean, exact):
         rt = common.un_text(real).replace('-0.0', '0.0')
         if rt == common.un_text(lean) and rt != common.un_text(real):
             return 'negzero'
-    if exact != '1':
+    if exact == '0':
         return 'noise'
     return 'drift'
 
@@ -970,41 +1203,6 @@ def strip_parens(t):
     return t
 
 
-def native_source(wb, trees, t, depth=0):
-    """is this operand (syntactically) the result of a function that hands back a NATIVE Python value
-    (no return annotation / a class as annotation: COUNT, COUNTA, MAX, MIN, the IS-family)?"""
-    t = strip_parens(t)
-    if t[0] == 'call':
-        nm = root_name(t).replace('_XLFN.', '')
-        if nm == 'IF':                     # an omitted branch is `ValueExpr(True)` / `ValueExpr(False)`: a native bool
-            return len(t[2]) < 3 or any(native_source(wb, trees, x, depth + 1) for x in t[2][1:])
-        return nm in NATIVE
-    if t[0] == 'ref' and depth < 4 and ':' not in t[2]:
-        return False if trees is None else any(
-            native_source(wb, trees, tt, depth + 1) for a, tt in trees.items()
-            if a.rsplit('!', 1)[1] == t[2].replace('$', '') and tt[0] != 'raw')
-    return False
-
-
-def native_operands(ctx, wb, trees, addr, sub):
-    """known finding D57 (C09) reached through a formula, and its sibling in COUNT: the evaluator hands the
-    NATIVE result of COUNT / COUNTA / MAX / MIN / IS* on unchanged; `=` / `<>` of two natives is Python `==`
-    (`1 == True`), and `Number.is_type(True)` holds for a native bool.  The value universe of the models has no
-    native values."""
-    if sub is None:
-        return False
-    sub = strip_parens(sub)
-    if sub[0] == 'bin' and sub[1] in ('=', '<>'):
-        args = [sub[2], sub[3]]
-        need = 2
-    elif sub[0] == 'call' and root_name(sub).replace('_XLFN.', '') in ('COUNT',):
-        args = list(sub[2])
-        need = 1
-    else:
-        return False
-    return sum(1 for x in args if native_source(wb, trees, x)) >= need
-
-
 def name_target(wb, n):
     t = wb.get('names', {}).get(n)
     if t is None:
@@ -1083,6 +1281,7 @@ def run(ctx):
         total = 0
 
     drifts = []
+    hdrifts = []
     done = 0
     chunk = 500
     while True:
@@ -1133,6 +1332,42 @@ def run(ctx):
                     res.count('outside:array-valued-cell-read')
                     continue
                 drifts.append((wb, trees, a, real, lean, fx, tag))
+        # ---- histories: set_cell_value between evaluations on ONE model and ONE evaluator
+        hitems = []
+        for wb, trees, tag in batch:
+            if wb.get('history'):
+                ops = [['e', a] for a in addrs_of(wb)] + wb['history']
+                hitems.append((wb, trees, ops))
+        for (wb, trees, ops), lres in zip(hitems, lean_history(ctx, [(wb, ops) for wb, _, ops in hitems])):
+            out = real_history(wb, ops)
+            if out is None:
+                res.count('skipped:real-code-slower-than-20s')
+                continue
+            rres, dated = out
+            if dated:
+                continue
+            res.count('histories')
+            n0 = len(addrs_of(wb))
+            has_array = any(r.startswith('A:') for r, _ in rres)
+            evs = [i for i, o in enumerate(ops) if o[0] == 'e']
+            for k, ((real, crash), (lean, exact)) in enumerate(zip(rres, lres)):
+                if k < n0:
+                    continue                                  # the first pass is the static comparison above
+                res.evaluations += 1
+                c = classify(real, crash, lean, exact)
+                a = ops[evs[k]][1]
+                if c == 'ok':
+                    res.count('history-steps:agree')
+                    res.nontrivial.add(f'history|{root_name(trees[a]) if a in trees else "cell"}|{real[:2]}')
+                    continue
+                if c in ('unsupported', 'noise', 'negzero'):
+                    res.count('history-steps:' + c)
+                    continue
+                if has_array and real.startswith('X:runtime') and crash in ('AttributeError', 'ValueError'):
+                    res.count('outside:array-valued-cell-read')
+                    continue
+                hdrifts.append((wb, trees, ops[:evs[k] + 1], a, real, lean))
+                break                                          # later steps of this history may only be consequences
         if time.time() > deadline:
             res.notes.append(f'time budget reached after {done} workbooks')
             break
@@ -1152,11 +1387,6 @@ def run(ctx):
         if trees and i < 400:
             try:
                 root, sub = blame(ctx, wb, trees, a)
-                if native_operands(ctx, wb, trees, a, sub):
-                    res.count('known:D57-native-operands')
-                    res.known.setdefault('D57', []).append({'workbook': wb, 'cell': a})
-                    excused.add((id(wb), a))
-                    continue
                 if if_array(wb, a, sub) or (real.startswith('X:runtime') and trees.get(a) is not None and any(
                         if_array(wb, a, st) for _, st in subtrees(trees[a]) if st[0] == 'call')):
                     # also when the blamed sub-formula is a reference back to this very cell (`=IF(A1:B2, f(B3))` in B3:
@@ -1193,10 +1423,6 @@ def run(ctx):
                 wb2, trees2 = shrink(ctx, wb, trees, a)
                 root2, sub2 = blame(ctx, wb2, trees2, a)
                 _, r2, l2 = disagrees(ctx, wb2, a)
-                if native_operands(ctx, wb2, trees2, a, sub2):
-                    res.count('known:D57-native-operands')
-                    res.known.setdefault('D57', []).append({'workbook': wb2, 'cell': a})
-                    continue
                 if if_array(wb2, a, sub2):
                     res.count('outside:IF-array-condition')
                     continue
@@ -1208,8 +1434,56 @@ def run(ctx):
         seen_roots[entry['what']] = seen_roots.get(entry['what'], 0) + 1
         res.drift.append(entry)
         res.violations.append(entry)
-    if drifts:
-        res.notes.append(f'{len(drifts)} disagreeing cells; by kind: {seen_roots}')
+    for wb, trees, ops, a, real, lean in hdrifts[:40]:
+        static = apply_sets(wb, ops)
+        entry = None
+        try:
+            bad, r2, l2 = disagrees(ctx, static, a)
+            if bad:
+                root, sub = blame(ctx, static, trees, a) if trees else ('?', None)
+                if sub is not None and if_array(static, a, sub):
+                    res.count('outside:IF-array-condition')
+                    continue
+                entry = {'what': f'DRIFT model != code at {root} (workbook after the sets of a history)',
+                         'input': {'workbook': static, 'cell': a, 'smallest_subformula': render(sub) if sub else None,
+                                   'root_function': root}, 'expected': describe(l2), 'got': describe(r2)}
+            else:
+                # a genuine history disagreement: drop calls while it persists
+                keep = list(ops)
+                i = 0
+                while i < len(keep) - 1 and len(keep) > 1:
+                    trial = keep[:i] + keep[i + 1:]
+                    out = real_history(wb, trial)
+                    ok = False
+                    if out is not None and out[0]:
+                        (rr, cr) = out[0][-1]
+                        (ll, ex) = lean_history(ctx, [(wb, trial)])[0][-1]
+                        ok = classify(rr, cr, ll, ex) == 'drift'
+                    if ok:
+                        keep = trial
+                    else:
+                        i += 1
+                out = real_history(wb, keep)
+                rr = out[0][-1][0] if out and out[0] else real
+                ll = lean_history(ctx, [(wb, keep)])[0][-1][0]
+                entry = {'what': 'DRIFT model != code in a HISTORY (set_cell_value / evaluate on one model)',
+                         'input': {'workbook': {k: v for k, v in wb.items() if k != 'history'}, 'history': keep,
+                                   'cell': a, 'formula': wb['cells'].get(a, wb['cells'].get(a.rsplit('!', 1)[-1]))},
+                         'expected': describe(ll), 'got': describe(rr)}
+        except Exception as exc:  # noqa: BLE001
+            entry = {'what': 'DRIFT model != code in a HISTORY (unshrunk)', 'input': {'workbook': wb, 'history': ops, 'cell': a},
+                     'expected': describe(lean), 'got': describe(real), 'shrink_error': repr(exc)}
+        seen_roots[entry['what']] = seen_roots.get(entry['what'], 0) + 1
+        res.drift.append(entry)
+        res.violations.append(entry)
+    if len(hdrifts) > 40:
+        for wb, trees, ops, a, real, lean in hdrifts[40:]:
+            e = {'what': 'DRIFT model != code in a HISTORY (unshrunk)', 'input': {'workbook': wb, 'history': ops, 'cell': a},
+                 'expected': describe(lean), 'got': describe(real)}
+            res.drift.append(e)
+            res.violations.append(e)
+    if drifts or hdrifts:
+        res.notes.append(f'{len(drifts)} disagreeing cells, {len(hdrifts)} disagreeing histories; by kind: {seen_roots}')
         for e in res.drift[:8]:
             print('DRIFT', json.dumps(e, default=str)[:900])
     return res
